@@ -186,6 +186,13 @@ func directC15glue(g *G, rep *Report) {
 			}
 		}
 		src := "{namespace n}\n/** */\n{template .t}\n" + body.String() + "\n{/template}\n"
+		if i%3 == 2 && !strings.Contains(body.String(), "$u") {
+			// the same body after a header param declaration: the blank text BETWEEN header params is not part of the
+			// body, whatever follows the last one is ("{@param u: ?}\n" + body: the frame's line break now stands here)
+			// (the param must be used: a command that renders nothing, after the frame's closing line break)
+			src = "{namespace n}\n{template .t}\n{@param u: ?}\n" + body.String() + "\n{if not $u}never{/if}{/template}\n"
+			rep.Distribution["after-header-param"]++
+		}
 		if pieces[0].kind == "comment" && strings.HasPrefix(pieces[0].src, "/*") == false {
 			// a leading line comment directly after the header newline: "\n // note\n": fine
 		}
